@@ -9,7 +9,7 @@ git apply "$patch" || { echo "patch does not apply"; exit 2; }
 cd /verif && ./check "$id" --tier "$tier" "$@" > /tmp/mutant_run.$$.log 2>&1
 rc=$?
 git -C /repo checkout -- . 
-grep -E "^(VIOLATION|INCONCLUSIVE|KNOWN-FINDING|property=)" /tmp/mutant_run.$$.log | head -8
+grep -E "^(VIOLATION|INCONCLUSIVE|KNOWN-FINDING|property=)|INCONCLUSIVE:" /tmp/mutant_run.$$.log | head -8
 echo "mutant=$(basename $patch) check=$id rc=$rc"
 # evidence was rewritten by the mutant run; caller should re-run the check on the clean tree before committing
 rm -f /tmp/mutant_run.$$.log
